@@ -27,7 +27,7 @@ BOUND = {
     "thorough": "text strings of <=3 fragments; grid subsets <=3 (core); other generators as quick with L(5,3)",
 }
 # as-built additions to the bound (kept next to BOUND so that the evidence reports them)
-BOUND = {k: v + "; plus: " + '28 structure-element names as question / group / choice-column names holding text; line breaks, tabs and space runs in 19 attribute-valued cells on short and very wide start tags; 13 multi-line texts (references alone on their line, tabs, CR LF) x 9 channels; dict input with numeric / boolean cells (subsets <=2 / <=4 of 10 cells)' for k, v in BOUND.items()}
+BOUND = {k: v + "; plus: " + '28 structure-element names and 4 non-ASCII names as question / group / choice-column names holding text; line breaks, tabs and space runs in 19 attribute-valued cells on short and very wide start tags; 13 multi-line texts (references alone on their line, tabs, CR LF) x 9 channels; dict input with numeric / boolean cells (subsets <=2 / <=4 of 10 cells)' for k, v in BOUND.items()}
 TEXT_CH = ["label", "hint", "guidance_hint", "constraint_message", "glabel", "clabel", "cextra", "default", "form_title"]
 
 
@@ -130,7 +130,8 @@ def gen_api(tier):
 
 # names a form author may give to instance nodes / choice columns that are also names of XForm structure elements
 STRUCT_NAMES = ["text", "item", "root", "instance", "model", "itext", "translation", "value", "label", "hint", "bind", "meta", "input", "group", "repeat",
-                "html", "head", "body", "title", "name", "itextId", "output", "select1", "setvalue", "instanceID", "entity", "data", "submission"]
+                "html", "head", "body", "title", "name", "itextId", "output", "select1", "setvalue", "instanceID", "entity", "data", "submission",
+                "pr\u00e9nom", "\u00e9t\u00e9", "\u540d\u524d", "\u0436_\u0436"]
 NM_VALUES = ["hello world", " x ", "a  b", "a\nb"]
 
 
